@@ -160,6 +160,10 @@ class _TableInterp:
         raise guards.Inconclusive(f"tracker dispatch statement {type(s).__name__}")
 
 
+class SharedRows(Exception):
+    """The registry is built so that every resource type shares one row object."""
+
+
 def registry_row_default(e, f, regv):
     """How the per-type rows of the registry are built: None for plain dicts
     (reading an absent name raises KeyError), an int for defaultdict(int)-like
@@ -169,6 +173,11 @@ def registry_row_default(e, f, regv):
         raise AnalysisError("tracker: the registry is not built by a single expression")
     d = defs[0]
     rows = []
+    if isinstance(d, ast.Call) and norm(d.func).endswith("dict.fromkeys") or (isinstance(d, ast.Call) and isinstance(d.func, ast.Attribute) and d.func.attr == "fromkeys"):
+        # dict.fromkeys(keys, value) stores the SAME value object under every key
+        raise SharedRows(norm(d)[:70])
+    if isinstance(d, ast.DictComp) and isinstance(d.value, ast.Name) and d.value.id not in {t.id for g_ in d.generators for t in ast.walk(g_.target) if isinstance(t, ast.Name)}:
+        raise SharedRows(norm(d)[:70])
     if isinstance(d, ast.DictComp):
         rows = [d.value]
     elif isinstance(d, ast.Dict):
@@ -195,7 +204,8 @@ def tracker_main(e):
 
 
 def _loop_parts(e):
-    """(func, while node, line var, dispatch try node, roles)."""
+    """(func, while node, dispatch try node, parse statements, roles) -- independent of how the line is parsed.
+    roles = (command var, name var, type var, registry var, cleanup table var)."""
     f = tracker_main(e)
     loop = None
     for n in func_nodes(f):
@@ -208,33 +218,91 @@ def _loop_parts(e):
     if len(tr) != 1:
         raise AnalysisError("tracker: the per-line try block not found")
     tr = tr[0]
-    # parsed fields
-    split_var = cmdv = namev = rtypev = None
-    for s in tr.body:
-        if isinstance(s, ast.Assign) and isinstance(s.value, ast.Call) and isinstance(s.value.func, ast.Attribute) and s.value.func.attr == "split" \
-                and isinstance(s.targets[0], ast.Name):
-            split_var = s.targets[0].id
-            split_call = s.value
-        if isinstance(s, ast.Assign) and isinstance(s.targets[0], ast.Tuple) and isinstance(s.value, ast.Tuple) and len(s.value.elts) == 3 \
-                and all(isinstance(t, ast.Name) for t in s.targets[0].elts):
-            parse = s
-            cmdv, namev, rtypev = [t.id for t in s.targets[0].elts]
-    if not (split_var and cmdv):
-        raise AnalysisError("tracker: parse of the request line not recognised")
-    # registry var and cleanup table
-    regv = None
+    # registry[<type var>][<name var>] and <cleanup table>[<type var>](<name var>)
+    regv = namev = rtypev = cleanup = None
     for x in ast.walk(tr):
         if isinstance(x, ast.Subscript) and isinstance(x.value, ast.Subscript) and isinstance(x.value.value, ast.Name) \
-                and isinstance(x.slice, ast.Name) and x.slice.id == namev:
-            regv = x.value.value.id
-    cleanup = None
+                and isinstance(x.slice, ast.Name) and isinstance(x.value.slice, ast.Name):
+            regv, rtypev, namev = x.value.value.id, x.value.slice.id, x.slice.id
     for x in ast.walk(tr):
         if isinstance(x, ast.Call) and isinstance(x.func, ast.Subscript) and isinstance(x.func.value, ast.Name) \
                 and isinstance(x.func.slice, ast.Name) and x.func.slice.id == rtypev:
             cleanup = x.func.value.id
     if not (regv and cleanup):
         raise AnalysisError("tracker: registry / cleanup table not recognised")
-    return f, loop, tr, (split_var, split_call, parse), (cmdv, namev, rtypev, regv, cleanup)
+    # the command variable: the name compared with the command literals
+    cmds = [x.left.id for x in ast.walk(tr) if isinstance(x, ast.Compare) and isinstance(x.left, ast.Name) and isinstance(x.ops[0], ast.Eq)
+            and isinstance(x.comparators[0], ast.Constant) and x.comparators[0].value in ("REGISTER", "UNREGISTER", "MAYBE_UNLINK", "PROBE")]
+    if not cmds or len(set(cmds)) != 1:
+        raise AnalysisError("tracker: command variable not recognised")
+    cmdv = cmds[0]
+    # the parse block: the leading assignments of the try body (everything before the first statement that is not an assignment)
+    parse = []
+    for st in tr.body:
+        if isinstance(st, ast.Assign):
+            parse.append(st)
+        else:
+            break
+    if not parse:
+        raise AnalysisError("tracker: parse of the request line not recognised")
+    return f, loop, tr, parse, (cmdv, namev, rtypev, regv, cleanup)
+
+
+class _ParseEval:
+    """Evaluates the parse block of the tracker (pure string operations: strip/decode/split/rsplit/partition/rpartition/join,
+    constant subscripts and slices, tuple assignment) on a sample request line.  This is constant folding of builtin string
+    methods over a literal, not an execution of loky; any other construct raises AnalysisError."""
+    METHODS = {"strip", "rstrip", "lstrip", "decode", "split", "rsplit", "partition", "rpartition", "join", "splitlines"}
+
+    def __init__(self, env):
+        self.env = dict(env)
+
+    def ev(self, x):
+        if isinstance(x, ast.Constant):
+            return x.value
+        if isinstance(x, ast.Name):
+            if x.id not in self.env:
+                raise AnalysisError(f"tracker parse: `{x.id}` is not defined by the parse block")
+            return self.env[x.id]
+        if isinstance(x, ast.Tuple):
+            return tuple(self.ev(v) for v in x.elts)
+        if isinstance(x, ast.List):
+            return [self.ev(v) for v in x.elts]
+        if isinstance(x, ast.UnaryOp) and isinstance(x.op, ast.USub):
+            return -self.ev(x.operand)
+        if isinstance(x, ast.Subscript):
+            v = self.ev(x.value)
+            sl = x.slice
+            if isinstance(sl, ast.Slice):
+                lo = self.ev(sl.lower) if sl.lower is not None else None
+                hi = self.ev(sl.upper) if sl.upper is not None else None
+                if sl.step is not None:
+                    raise AnalysisError("tracker parse: stepped slice")
+                return v[lo:hi]
+            return v[self.ev(sl)]
+        if isinstance(x, ast.Call) and isinstance(x.func, ast.Attribute) and x.func.attr in self.METHODS and not x.keywords:
+            recv = self.ev(x.func.value)
+            args = [self.ev(a) for a in x.args]
+            if not isinstance(recv, (str, bytes)):
+                raise AnalysisError("tracker parse: method on a non-string")
+            return getattr(recv, x.func.attr)(*args)
+        raise AnalysisError(f"tracker parse: `{norm(x)[:50]}` is not a pure string operation this rule can fold")
+
+    def run(self, stmts):
+        for st in stmts:
+            v = self.ev(st.value)
+            for t in st.targets:
+                if isinstance(t, ast.Name):
+                    self.env[t.id] = v
+                elif isinstance(t, ast.Tuple) and all(isinstance(el, ast.Name) for el in t.elts):
+                    vs = list(v)
+                    if len(vs) != len(t.elts):
+                        raise AnalysisError("tracker parse: unpacking arity")
+                    for el, vv in zip(t.elts, vs):
+                        self.env[el.id] = vv
+                else:
+                    raise AnalysisError("tracker parse: unsupported assignment target")
+        return self.env
 
 
 def dispatched_literals(e):
@@ -248,16 +316,22 @@ def dispatched_literals(e):
 
 
 def r_rt_table(e, R):
-    f, loop, tr, (split_var, split_call, parse), roles = _loop_parts(e)
+    f, loop, tr, parse, roles = _loop_parts(e)
     lits = sorted(dispatched_literals(e))
     R.info["tracker_commands"] = lits
     spec_cmds = {"REGISTER", "UNREGISTER", "MAYBE_UNLINK", "PROBE"}
     R.check(spec_cmds <= set(lits), "R-RT-TABLE", f"tracker dispatches {sorted(spec_cmds)}", f.short, f"commands {lits}",
             f"the tracker loop no longer dispatches {sorted(spec_cmds - set(lits))}", e.loc(f, tr))
-    body = [s for s in tr.body if not (isinstance(s, ast.Assign) and (s is parse or (isinstance(s.targets[0], ast.Name) and s.targets[0].id == split_var)))]
+    body = [s for s in tr.body if not any(s is ps for ps in parse)]
     rows = 0
 
-    default = registry_row_default(e, f, roles[3])
+    try:
+        default = registry_row_default(e, f, roles[3])
+    except SharedRows as ex:
+        R.fail("R-RT-TABLE", f.short, str(ex), "the registry gives every resource type the SAME row object (dict.fromkeys with a mutable value / a row built outside "
+               "the comprehension): counts are no longer kept per (type, name); a request of one type changes the count of a same-named resource of another "
+               "type, which is then destroyed early or never", e.loc(f, f.node))
+        return
     R.info["tracker_registry_rows"] = "plain dict (absent -> KeyError)" if default is None else f"defaulting rows (absent reads as {default})"
 
     def run(cmd, known, count):
@@ -405,6 +479,33 @@ def r_rt_loop(e, R):
                         okc = bool(tr2) and _inside(e, tr2[0], fo)
             R.check(okc, "R-RT-LOOP", f"{nm}: calls the type's cleanup for every remaining name, each in its own try", f.short, nm,
                     "the sweep does not clean every remaining name (or one failure aborts the rest)", e.loc(f, hf))
+    # the command pipe is whatever descriptor number was free in the launching process (0 when it runs with stdin closed):
+    # the tracker must not close or overwrite descriptors *by number* before (or while) it reads from the one it was given
+    fdp = f.params[0]
+    lit_targets = {}
+    for n in func_nodes(f):
+        if isinstance(n, ast.For) and isinstance(n.target, ast.Name) and isinstance(n.iter, (ast.Tuple, ast.List)) and n.iter.elts \
+                and all(isinstance(x, ast.Constant) and isinstance(x.value, int) for x in n.iter.elts):
+            lit_targets[n.target.id] = [x.value for x in n.iter.elts]
+        if isinstance(n, ast.For) and isinstance(n.target, ast.Name) and isinstance(n.iter, ast.Call) and norm(n.iter.func) == "range":
+            lit_targets[n.target.id] = "range"
+    for c in [x for x in func_nodes(f) if isinstance(x, ast.Call)]:
+        fn = norm(c.func)
+        tgt_arg = None
+        if fn == "os.dup2" and len(c.args) >= 2:
+            tgt_arg = c.args[1]
+        elif fn == "os.close" and c.args:
+            tgt_arg = c.args[0]
+        elif fn == "os.closerange":
+            tgt_arg = c.args[0] if c.args else None
+        if tgt_arg is None:
+            continue
+        by_number = (isinstance(tgt_arg, ast.Constant) and isinstance(tgt_arg.value, int)) or (isinstance(tgt_arg, ast.Name) and tgt_arg.id in lit_targets) \
+            or (isinstance(tgt_arg, ast.Call) and norm(tgt_arg.func).endswith(".fileno")) or fn == "os.closerange"
+        R.check(not by_number, "R-RT-LOOP", f"tracker main: `{fn}` does not act on a descriptor chosen by number", f.short, norm(c)[:60],
+                f"the tracker closes / overwrites descriptor {norm(tgt_arg)} by number: its command pipe `{fdp}` is simply the lowest descriptor that was free in the "
+                "process that launched it (0 or 1 when that process runs with stdin/stdout closed), so the tracker reads EOF at once, sweeps everything and exits "
+                "while its tree is alive; every later request relaunches another short-lived tracker", e.loc(f, c))
     R.floor("R-RT-LOOP", 8)
 
 
@@ -583,21 +684,33 @@ def stdlib_tracker_literals():
 
 
 def r_rt_proto(e, R):
-    f, loop, tr, (split_var, split_call, parse), roles = _loop_parts(e)
-    # split on ":" of the stripped ascii line
-    oks = split_call.args and isinstance(split_call.args[0], ast.Constant) and split_call.args[0].value == ":"
-    R.check(bool(oks), "R-RT-PROTO", "request lines are split on ':'", f.short, norm(split_call), "requests are not split on ':'", e.loc(f, split_call))
-    c_, n_, t_ = parse.value.elts
-
-    def idx(x, want):
-        return isinstance(x, ast.Subscript) and isinstance(x.value, ast.Name) and x.value.id == split_var and norm(x.slice) == want
-    okc = idx(c_, "0")
-    okt = idx(t_, "-1")
-    okn = isinstance(n_, ast.Call) and isinstance(n_.func, ast.Attribute) and n_.func.attr == "join" and isinstance(n_.func.value, ast.Constant) \
-        and n_.func.value.value == ":" and len(n_.args) == 1 and idx(n_.args[0], "1:-1")
-    R.check(okc and okt and okn, "R-RT-PROTO", "command = first field, type = last field, name = ':'-join of the middle fields", f.short,
-            norm(parse.value), "the request parse no longer maps (first, ':'.join(middle), last) to (command, name, type): names containing ':' "
-            "are truncated or shifted into the type", e.loc(f, parse))
+    f, loop, tr, parse, roles = _loop_parts(e)
+    cmdv, namev, rtypev = roles[0], roles[1], roles[2]
+    # the line variable: the name assigned from readline()
+    linev = None
+    for n in func_nodes(f):
+        if isinstance(n, ast.Assign) and isinstance(n.targets[0], ast.Name) and isinstance(n.value, ast.Call) and isinstance(n.value.func, ast.Attribute) \
+                and n.value.func.attr == "readline":
+            linev = n.targets[0].id
+    if linev is None:
+        raise AnalysisError("tracker: the line variable is not recognised")
+    # the wire format is `cmd:name:rtype\n` where the *name* may itself contain ':' (Windows paths, user-chosen names):
+    # command = text before the first ':', type = text after the last ':', name = everything in between
+    samples = [(b"REGISTER:/loky-1-x:semlock\n", ("REGISTER", "/loky-1-x", "semlock")),
+               (b"MAYBE_UNLINK:/tmp/a:b:c:folder\n", ("MAYBE_UNLINK", "/tmp/a:b:c", "folder")),
+               (b"UNREGISTER:C:\\dir\\f:file\n", ("UNREGISTER", "C:\\dir\\f", "file")),
+               (b"PROBE:0:noop\n", ("PROBE", "0", "noop"))]
+    bad = None
+    for raw, want in samples:
+        env = _ParseEval({linev: raw}).run(parse)
+        got = (env.get(cmdv), env.get(namev), env.get(rtypev))
+        if got != want:
+            bad = (raw, got, want)
+            break
+    R.check(bad is None, "R-RT-PROTO", "command = text before the first ':', type = text after the last ':', name = everything in between (folded on sample lines)",
+            f.short, "; ".join(norm(st)[:60] for st in parse)[:160],
+            (f"the request parse maps {bad[0]!r} to (command, name, type) = {bad[1]!r} instead of {bad[2]!r}: names containing ':' are truncated or shifted "
+             "into the type, the request is rejected as 'unknown resource type' and the resource is never tracked") if bad else "", e.loc(f, parse[0]))
     lits = dispatched_literals(e)
     # loky's own client
     sent = {}
